@@ -66,6 +66,7 @@ def purity_seeds(ctx: Context) -> dict[tuple[str, str], set[str]]:
 
 def run(ctx: Context) -> None:
     ctx.rule(r1_purity)
+    ctx.rule(r1b_user_results)
     ctx.rule(r2_no_state)
     ctx.rule(r3_weighted_sum)
     ctx.rule(r4_validation)
@@ -93,6 +94,64 @@ def r1_purity(ctx: Context) -> None:
             ctx.fail("R2.no-state", f"{c}.{a}:holds-input-alias", f"{c}.{a} keeps a reference to the {sorted(v)} array of an evaluation", None, None)
     for k in sorted(aa.external_receivers):
         ctx.assume(f"third-party / user callee {k} does not modify the loss input alias it receives")
+
+
+def r1b_user_results(ctx: Context) -> None:
+    """What a user-supplied callable returns (moment calculator, coordinate filter, frequency filter) belongs to the user: it may be a cached array or a view
+    of the data that went in.  Writing into it in place (`x /= s`, `x[i] = ..`, `x.sort()`) changes what the next evaluation sees, so the loss is no longer
+    a function of its arguments.  Re-binding (`x = x / s`) is fine."""
+    prog = ctx.prog
+    n_funcs = n_foreign = 0
+    for c in loss_classes(ctx):
+        methods = {m for k in prog.mro(c) for m in k.methods}
+        for f in reachable_in_class(ctx, c, ["compute_loss", "compute_loss_1d"]):
+            if f.self_name is None and f.cls is not None:
+                continue
+            n_funcs += 1
+            foreign: dict[str, ast.AST] = {}
+            callables = set()
+            for s_ in walk_scope(f.node):
+                # loop variables over a sequence of user callables (`for i, filter_ in enumerate(filters)`) are user callables too
+                if isinstance(s_, ast.For):
+                    for x in ast.walk(s_.target):
+                        if isinstance(x, ast.Name) and ("filter" in x.id.lower() or "calculator" in x.id.lower() or x.id.lower() in ("fn", "func", "f_")):
+                            callables.add(x.id)
+            for s_ in walk_scope(f.node):
+                if isinstance(s_, (ast.Assign, ast.AnnAssign)) and isinstance(getattr(s_, "value", None), ast.Call):
+                    fn = s_.value.func
+                    user = (isinstance(fn, ast.Attribute) and isinstance(fn.value, ast.Name) and fn.value.id == f.self_name and fn.attr not in methods) or (isinstance(fn, ast.Name) and fn.id in callables)
+                    tgt = s_.targets[0] if isinstance(s_, ast.Assign) else s_.target
+                    if user and isinstance(tgt, ast.Name):
+                        foreign[tgt.id] = s_
+            n_foreign += len(foreign)
+            if not foreign:
+                continue
+            # a later re-binding by a fresh value ends the aliasing; keep it simple: only names bound once to the user result are tracked
+            for nm in list(foreign):
+                binds = [x for x in walk_scope(f.node) if isinstance(x, (ast.Assign, ast.AnnAssign)) and any(isinstance(t, ast.Name) and t.id == nm for t in (x.targets if isinstance(x, ast.Assign) else [x.target]))]
+                if len(binds) != 1:
+                    foreign.pop(nm)
+            for x in walk_scope(f.node):
+                hit = None
+                if isinstance(x, ast.AugAssign):
+                    b = x.target
+                    while isinstance(b, ast.Subscript):
+                        b = b.value
+                    if isinstance(b, ast.Name) and b.id in foreign:
+                        hit = b.id
+                elif isinstance(x, ast.Assign) and isinstance(x.targets[0], ast.Subscript):
+                    b = x.targets[0]
+                    while isinstance(b, ast.Subscript):
+                        b = b.value
+                    if isinstance(b, ast.Name) and b.id in foreign:
+                        hit = b.id
+                elif isinstance(x, ast.Expr) and isinstance(x.value, ast.Call) and isinstance(x.value.func, ast.Attribute) and x.value.func.attr in ("sort", "fill", "resize", "put", "itemset", "partition") \
+                        and isinstance(x.value.func.value, ast.Name) and x.value.func.value.id in foreign:
+                    hit = x.value.func.value.id
+                if hit is not None:
+                    ctx.fail("R1.user-result-purity", f"{f.qualname.split(':')[1]}:{hit}", f"`{src(x)[:80]}` writes in place into `{hit}`, the array returned by the user-supplied `{src(foreign[hit].value.func)}`: "  # type: ignore[attr-defined]
+                             "if that callable caches or returns a view, the next evaluation starts from modified values - the loss stops being a function of its arguments", f, x)
+    ctx.ok("R1.user-result-purity", "losses:user-callable-results", f"{n_funcs} functions, {n_foreign} values returned by user-supplied callables: none is modified in place")
 
 
 def reachable_in_class(ctx: Context, c: ClassInfo, roots: list[str]) -> list[FuncInfo]:
